@@ -397,6 +397,7 @@ static void prog_pc(int nconsumers, int rounds, size_t lo, size_t hi_) {
     vf_point();
     long areas = count_areas(hps[0].hp);
     vf_logf("{\"e\":\"round\",\"k\":%d,\"n\":%d,\"areas\":%ld,\"mapped\":%ld}", i, rounds, areas, statm_pages(0)); vf_log_line_end();
+    if (i % 120 == 60) { heap_dump_owner = 1; emit_heaps(); emit_heaps(); heap_dump_owner = 0; }    /* the producer's page queues (it is the owner; consumers only push remote frees) */
   }
   pc_stop = 1;
   vf_wait_all();
